@@ -84,12 +84,17 @@ WordAt(n, pos, l) == [j \in 1..n |-> IF j = pos THEN l ELSE 0]      \* pos = 0: 
 AdSign(q, w) == IF PCommutes(q, w) THEN 1 ELSE -1                   \* Q P Q = AdSign(Q, P) P
 InvKinds == {"AI", "AII", "AIII", "BDI", "CI", "CII", "DIII", "A", "BD", "C", "even_odd", "concurrence"}
 WiredKinds == {"AII", "AIII", "BDI", "CII", "DIII", "A", "BD", "C"}
+\* A, BD, C are documented as the swap x (+) y -> y (+) x of two block-diagonal components: defined on block-diagonal
+\* operators only (letter I or Z at the distinguished wire), where the swap is conjugation with X at that wire
+SwapKinds == {"A", "BD", "C"}
+InDomain(kind, pos, w) == kind \in SwapKinds => (pos \in 1..Len(w) /\ w[pos] \in {0, 3})
 \* eigenvalue of the involution on the algebra element i*P (P a word); `pos` the position of the distinguished wire
 ThetaSign(kind, pos, w) == LET n == Len(w) IN
    CASE kind \in {"AI", "CI"} -> -ConjSign(w)                                        \* x -> x^*        : (iP)^* = -i conj(P)
      [] kind = "AII" -> -ConjSign(w) * AdSign(WordAt(n, pos, 2), w)                  \* x -> Y x^* Y
      [] kind \in {"AIII", "BDI", "CII"} -> AdSign(WordAt(n, pos, 3), w)              \* x -> Z x Z      (p = q = 2^(n-1))
-     [] kind \in {"DIII", "A", "BD", "C"} -> AdSign(WordAt(n, pos, 2), w)            \* x -> Y x Y
+     [] kind = "DIII" -> AdSign(WordAt(n, pos, 2), w)                                \* x -> Y x Y
+     [] kind \in {"A", "BD", "C"} -> AdSign(WordAt(n, pos, 1), w)                    \* swap of the two blocks = X x X (on its domain)
      [] kind = "concurrence" -> -ConjSign(w)                                         \* x -> -x^T       : odd number of Y -> +1
      [] kind = "even_odd" -> IF PWeight(w) % 2 = 1 THEN 1 ELSE -1                    \* odd number of non-identity letters -> +1
 ThetaS(kind, pos, s) == SNorm([w \in DOMAIN s |-> GdMul(GdInt(ThetaSign(kind, pos, w)), s[w])])
